@@ -309,6 +309,24 @@ fn configs(thorough: bool, seed: u64) -> Vec<Cfg> {
     v
 }
 
+/// Timing written in the `timeline!` grammar (units mixed, words in any order): the accessors must report what the
+/// sentence says, and a linear probe must behave accordingly.
+fn macro_sentences() -> Vec<(&'static str, <S1 as Shape>::Tl, Cfg)> {
+    #[allow(unused_imports)]
+    use mina::prelude::*;
+    let c = |cycle: f32, delay: f32, rep: Rep, rev: bool| Cfg { cycle, delay, rep, rev };
+    vec![
+        ("2s after 500ms 1x reverse", mina::timeline!(S1 2s after 500ms 1x reverse from { x: 0.0 } to { x: 1.0 }), c(2.0, 0.5, Rep::Times(1), true)),
+        ("500ms after 1s", mina::timeline!(S1 500ms after 1s from { x: 0.0 } to { x: 1.0 }), c(0.5, 1.0, Rep::None, false)),
+        ("after 250ms for 4s infinite", mina::timeline!(S1 after 250ms for 4s infinite from { x: 0.0 } to { x: 1.0 }), c(4.0, 0.25, Rep::Infinite, false)),
+        ("3x after 2s 250ms", mina::timeline!(S1 3x after 2s 250ms from { x: 0.0 } to { x: 1.0 }), c(0.25, 2.0, Rep::Times(3), false)),
+        ("after 1000ms reverse 0.5s", mina::timeline!(S1 from { x: 0.0 } after 1000ms reverse 0.5s to { x: 1.0 }), c(0.5, 1.0, Rep::None, true)),
+        ("1s after 1s 2x", mina::timeline!(S1 1s after 1s 2x from { x: 0.0 } to { x: 1.0 }), c(1.0, 1.0, Rep::Times(2), false)),
+        ("125ms after 125ms infinite reverse", mina::timeline!(S1 125ms after 125ms infinite reverse from { x: 0.0 } to { x: 1.0 }), c(0.125, 0.125, Rep::Infinite, true)),
+        ("after 0.5s 2000ms", mina::timeline!(S1 to { x: 1.0 } after 0.5s from { x: 0.0 } 2000ms), c(2.0, 0.5, Rep::None, false)),
+    ]
+}
+
 fn boundaries(cfg: &Cfg) -> Vec<f32> {
     let mut b = vec![0.0f32, -0.0, cfg.delay];
     let n = cfg.rep.cycles().unwrap_or(6).min(6);
@@ -326,6 +344,7 @@ const STREAM_SWEEP: u64 = 1;
 const STREAM_GRID: u64 = 2;
 const STREAM_META: u64 = 3;
 const STREAM_ODD: u64 = 4;
+const STREAM_MACRO: u64 = 5;
 
 pub fn run(run: &mut Run) {
     let thorough = run.thorough();
@@ -483,6 +502,35 @@ pub fn run(run: &mut Run) {
                     run.acc.violation("c03:ended-late", format!("still not Ended at t={last_not_ended} after duration {dur} for {:?}", cfg), case("ended-vs-duration"));
                 }
             }
+        }
+    }
+    // ---- timing written in the macro grammar
+    if rc.is_none() || rc.map(|(s, _)| s) == Some(STREAM_MACRO) {
+        for (si, (name, tl, cfg)) in macro_sentences().into_iter().enumerate() {
+            let case = |what: &str| case_json(STREAM_MACRO, si as u64, vec![("sentence", J::s(name)), ("config", cfg.json()), ("clause", J::s(what))]);
+            run.acc.eval();
+            let want_total = cfg.delay as f64 + cfg.total();
+            let dur_ok = if want_total.is_infinite() { tl.duration() == f32::INFINITY } else { tl.duration() as f64 == want_total };
+            if !same_f32(tl.delay(), cfg.delay) || tl.cycle_duration().map(|c| c.to_bits()) != Some(cfg.cycle.to_bits()) || Rep::from_mina(tl.repeat()) != cfg.rep || !dur_ok {
+                run.acc.violation(
+                    "c03:macro-meta",
+                    format!("timeline!({name} ...) reports delay {} cycle {:?} repeat {:?} duration {}; the sentence configures delay {} cycle {} repeat {:?} total {want_total}", tl.delay(), tl.cycle_duration(), tl.repeat(), tl.duration(), cfg.delay, cfg.cycle, cfg.rep),
+                    case("accessors equal what the sentence configures"),
+                );
+                continue;
+            }
+            for j in 0..=(64.0 * (want_total.min(12.0) + 1.0)) as u32 {
+                let t = j as f32 / 64.0 - 0.25;
+                let m = mscale(cfg.cycle as f64, cfg.delay as f64, cfg.rep, cfg.rev, t as f64);
+                let mut v = S1 { x: 0.25 };
+                tl.update(&mut v, t);
+                run.acc.eval();
+                if v.x as f64 != m.p {
+                    run.acc.violation("c03:macro-route", format!("timeline!({name} ...): linear probe gives {} at t={t}, the configured timing means position {}", v.x, m.p), case("behaviour agrees with the configured timing"));
+                    break;
+                }
+            }
+            run.acc.sig(format!("macro-sentence|{name}"));
         }
     }
     // ---- exact dyadic grid: bit-exact positions, flags and relations
